@@ -203,17 +203,18 @@ def digitVal (c : Char) : Nat := c.toNat - 48
 lone sign are errors, one optional `+`/`-`, then digits only.  (Values that do not fit an `isize`
 are an error there and are parsed again by `BigInt`, with the same result for these strings; the
 model keeps one unbounded integer.) -/
+def nativeDigits (ds : List Char) : Option Nat :=
+  if ds.isEmpty then none
+  else ds.foldl (fun acc c => acc.bind (fun n => if isDigit c then some (n * 10 + digitVal c) else none)) (some 0)
+
 def parseNative (lex : Str) : Option Int :=
-  let digits (ds : List Char) : Option Nat :=
-    if ds.isEmpty then none
-    else ds.foldl (fun acc c => acc.bind (fun n => if isDigit c then some (n * 10 + digitVal c) else none)) (some 0)
   match lex with
   | [] => none
   | ['+'] => none
   | ['-'] => none
-  | '+' :: ds => (digits ds).map Int.ofNat
-  | '-' :: ds => (digits ds).map (fun n => -(Int.ofNat n))
-  | ds => (digits ds).map Int.ofNat
+  | '+' :: ds => (nativeDigits ds).map Int.ofNat
+  | '-' :: ds => (nativeDigits ds).map (fun n => -(Int.ofNat n))
+  | ds => (nativeDigits ds).map Int.ofNat
 
 /-- `BigUint::from_str_radix(s, 10)` (num-bigint 0.4): one `+` is stripped unless another follows,
 the rest must be non-empty, must not start with `_`, and consists of digits and `_` (skipped) -/
